@@ -298,10 +298,10 @@ func explore(r *ev.Run, e *hsenv.Env, ad adapter, sim *hsenv.Sim, base polyenv.D
 			r.Eval()
 			nx := state{mask: mask, head: s.head, headH: s.headH}
 			if res.Panic != nil {
-				nx.probs = append(nx.probs, problem{"panic", fmt.Sprint(res.Panic)})
-				nx.dump = s.dump
-				nx.hskey = s.hskey
-				return nx, true
+				// not what C27 states (no panic-freedom clause): counted, and judged like a failed transaction
+				r.Class(tag + ":panic")
+				r.Note("panics_observed", fmt.Sprint(res.Panic))
+				res.OK = false
 			}
 			nx.dump = sim.Dump()
 			nx.hskey = hsKey(nx.dump, mask)
@@ -401,7 +401,7 @@ func classify(prev, nx state, v view, nodes []int, in *instance) []string {
 	if v.Head == prev.head {
 		switch c := nr.TD.Cmp(hr.TD); {
 		case c == 0:
-			out = append(out, "tie-head-kept")
+			out = append(out, "tie-head-kept", "tie-observed")
 		case nr.Height > hr.Height:
 			out = append(out, "longer-but-lighter-kept")
 		default:
@@ -411,7 +411,7 @@ func classify(prev, nx state, v view, nodes []int, in *instance) []string {
 	}
 	// head moved
 	if pr, ok := v.Stored[prev.head]; ok && pr.TD.Cmp(hr.TD) == 0 {
-		out = append(out, "tie-head-switched")
+		out = append(out, "tie-head-switched", "tie-observed")
 	}
 	newly := map[string]bool{}
 	for _, i := range nodes {
